@@ -342,8 +342,16 @@ static long eval_const_expr(Token **rest, Token *tok) {
   // A constant that fits in intmax_t is unsigned only if it has a
   // `u` suffix, even if it would not fit in an int.
   for (Token *t = expr; t->kind != TK_EOF; t = t->next) {
-    if (t->kind != TK_NUM || !is_integer(t->ty) || t->ty->size == 8)
+    if (t->kind != TK_NUM || !is_integer(t->ty))
       continue;
+
+    // A constant too large for intmax_t is a uintmax_t.
+    if (t->ty->size == 8) {
+      if (t->val < 0 && isdigit(t->loc[0]))
+        t->ty = ty_ulong;
+      continue;
+    }
+
     // u'x' and U'x' have unsigned types (char16_t, char32_t).
     if (!isdigit(t->loc[0]) && t->ty->is_unsigned) {
       t->val = (t->ty->size == 2) ? (uint16_t)t->val : (uint32_t)t->val;
